@@ -1,5 +1,5 @@
 From Sigtools.Model Require Import Base Bind Algebra Annot Visitor Discover.
-From Sigtools.Proofs Require Import Annot AnnotTwins.
+From Sigtools.Proofs Require Import Annot AnnotTwins AnnotWraps.
 Open Scope N_scope.
 
 Theorem C11_carried_merge : forall s0 ss r, merge (s0 :: ss) = Ok r ->
@@ -189,4 +189,19 @@ Print Assumptions C11_embed_twin_refuted.
 Theorem C11_forwards_twin_refuted : exists (g : genv) (d0 d1 : fdesc), bound_ok g d0 /\ bound_ok g d1 /\ res_map (observe g) (forwards (up (eager_twin g d0)) (up (eager_twin g d1)) 0 [] false false true true false) <> res_map (observe g) (forwards (up d0) (up d1) 0 [] false false true true false).
 Proof. exact @forwards_twin_refuted. Qed.
 Print Assumptions C11_forwards_twin_refuted.
+
+
+(* ---- retrieval through a functools.wraps wrapper defined in another module reports the WRAPPER's globals for the
+   copied annotations (known finding C11:wraps-globals; Proofs/AnnotWraps.v) ---- *)
+Theorem C11_upgrade_defining_context : forall (g : genv) (f : N) (rps : list rawparam) (rr : option N) (p : param), In p (params (upgrade_sig (Some true) f rps rr)) -> match pann p with | Some a => source_value g (puann p) = denotes g f a | None => source_value g (puann p) = None end.
+Proof. exact @AnnotWraps.upgrade_defining_context. Qed.
+Print Assumptions C11_upgrade_defining_context.
+
+Theorem C11_wraps_reports_wrapper_context : forall (g : genv) (wrapper : N) (rps : list rawparam) (rr : option N) (p : param), In p (params (retrieve_through (Some true) wrapper rps rr)) -> match pann p with | Some a => source_value g (puann p) = denotes g wrapper a | None => source_value g (puann p) = None end.
+Proof. exact @AnnotWraps.wraps_reports_wrapper_context. Qed.
+Print Assumptions C11_wraps_reports_wrapper_context.
+
+Theorem C11_wraps_globals_refuted : exists (g : genv) (wrapped wrapper : N) (rps : list rawparam) (rr : option N) (p : param) (a : N), (exists raw : N, g wrapped raw <> g wrapper raw) /\ In p (params (retrieve_through (Some true) wrapper rps rr)) /\ pann p = Some a /\ source_value g (puann p) <> denotes g wrapped a /\ source_value g (uret (retrieve_through (Some true) wrapper rps rr)) <> match rr with | Some r => denotes g wrapped r | None => None end.
+Proof. exact @AnnotWraps.wraps_globals_refuted. Qed.
+Print Assumptions C11_wraps_globals_refuted.
 
